@@ -18,22 +18,22 @@ extern RunResult eng_value_run(const RunSpec &);
 extern RunResult eng_walk_run(const RunSpec &);
 const PropInfo g_props[] = {
     // id, engine, level, quick runs, thorough runs, quick cap s, thorough cap s, rule
-    {"C01", "doc", "exploration", 6000, 200000, 60, 900, "a case is one seeded (abstract document, layout, buffer-knob setting) parsed through the simulated stream; distinct = distinct (token kind, presentation kind, following token kind) triples plus distinct (knob bucket, probe) pairs observed"},
-    {"C02", "api", "exploration", 1500, 60000, 70, 900, "a case is one seeded API history followed by cif_write to the simulated output stream (short writes) and cif_parse of those bytes; distinct = distinct (op kind, result code, pre-state class) triples plus distinct (value presentation chosen by the writer, string feature class) pairs"},
-    {"C03", "doc", "exploration", 6000, 250000, 70, 900, "a case is one seeded (byte string, option set, error-callback decision table, stream fault) parsed once or twice; distinct = distinct (first error code, option class, fault kind, rc class) tuples"},
-    {"C04", "api", "exploration", 2500, 120000, 70, 900, "a case is one seeded API history over 1-3 managed CIFs mirrored in the reference model; distinct = distinct (op kind, result code, pre-state class) triples"},
-    {"C05", "api", "exploration", 2500, 100000, 70, 900, "a case is one seeded API history with planted failing calls (offending element at a chosen position, inside or outside an iterator transaction) or a storage-engine fault; distinct = distinct (planted failure kind, position, inside-transaction flag, result code) tuples"},
-    {"C06", "api", "exploration", 3000, 150000, 70, 900, "a case is one seeded loop plus a next/update/remove call sequence (life cycle respected or not) ended by close or abort; distinct = distinct (iterator op, iterator state, result code, loop shape class) tuples"},
-    {"C07", "api", "exploration", 2500, 120000, 70, 900, "a case is one seeded value stored by one of five paths, caller object then mutated or freed, read back by three paths; distinct = distinct (value shape class, store path, read path, spill flag) tuples"},
-    {"C08", "doc", "exploration", 3000, 120000, 70, 900, "a case is one base document parsed at shipped knobs and again under 3-6 transformations (terminator rewriting, buffer knobs, padding); distinct = distinct (transformation kind, knob bucket, probe fired, outcome class) tuples"},
-    {"C11", "doc", "exploration", 5000, 150000, 60, 900, "a case is one cell of (magic, BOM, prefer_cif2, encoding, force flag, default converter) applied to a dialect-probe text; distinct = distinct cells"},
-    {"C12", "doc", "exploration", 5000, 200000, 60, 900, "a case is one well-formed host document with one planted defect of a documented class at a seeded position; distinct = distinct (defect class, position kind, dialect) triples"},
-    {"C13", "api", "exploration", 1500, 60000, 70, 900, "as C02 with cif_version=1 output and CIF 1.1 re-parse; distinct = distinct (op kind, result code, pre-state class) triples plus distinct (writer outcome, refusal cause set) pairs"},
-    {"C14", "walk", "exploration", 4000, 200000, 60, 900, "a case is one seeded CIF plus one handler program (response table per callback kind, optional re-entrant queries); distinct = distinct (callback kind, response, depth class) triples plus distinct CIF shape classes"},
-    {"C15", "doc", "exploration", 4000, 150000, 60, 900, "a case is one document plus one handler program parsed in storing and syntax-only mode; distinct = distinct (callback kind, response, mode) triples"},
-    {"C16", "mix", "exploration", 3000, 120000, 80, 900, "a case is one run of any engine's workload with semantic oracles off and the sanitizer / leak / locale / rounding monitors on; distinct = distinct (engine, op kind, result code) triples"},
-    {"C17", "mix", "fault_enumeration", 300, 6000, 80, 1200, "a case is one (API call in a seeded history, allocator, failure index k) step; for each call k runs 1,2,... until the fault no longer fires (quick tier samples k beyond 8); distinct = distinct (API function, allocator, k, result code) tuples"},
-    {"C19", "value", "exploration", 6000, 300000, 60, 900, "a case is one seeded history of value/list/table/packet operations mirrored in the value model; distinct = distinct (op kind, result code, operand kind class) triples"},
+    {"C01", "doc", "exploration", 60000, 1500000, 90, 1800, "a case is one seeded (abstract document, layout, buffer-knob setting) parsed through the simulated stream; distinct = distinct (token kind, presentation kind, following token kind) triples plus distinct (knob bucket, probe) pairs observed"},
+    {"C02", "api", "exploration", 20000, 500000, 90, 1800, "a case is one seeded API history followed by cif_write to the simulated output stream (short writes) and cif_parse of those bytes; distinct = distinct (op kind, result code, pre-state class) triples plus distinct (value presentation chosen by the writer, string feature class) pairs"},
+    {"C03", "doc", "exploration", 40000, 1000000, 90, 1800, "a case is one seeded (byte string, option set, error-callback decision table, stream fault) parsed once or twice; distinct = distinct (first error code, option class, fault kind, rc class) tuples"},
+    {"C04", "api", "exploration", 25000, 600000, 90, 1800, "a case is one seeded API history over 1-3 managed CIFs mirrored in the reference model; distinct = distinct (op kind, result code, pre-state class) triples"},
+    {"C05", "api", "exploration", 20000, 500000, 90, 1800, "a case is one seeded API history with planted failing calls (offending element at a chosen position, inside or outside an iterator transaction) or a storage-engine fault; distinct = distinct (planted failure kind, position, inside-transaction flag, result code) tuples"},
+    {"C06", "api", "exploration", 30000, 700000, 90, 1800, "a case is one seeded loop plus a next/update/remove call sequence (life cycle respected or not) ended by close or abort; distinct = distinct (iterator op, iterator state, result code, loop shape class) tuples"},
+    {"C07", "api", "exploration", 25000, 600000, 90, 1800, "a case is one seeded value stored by one of five paths, caller object then mutated or freed, read back by three paths; distinct = distinct (value shape class, store path, read path, spill flag) tuples"},
+    {"C08", "doc", "exploration", 12000, 300000, 90, 1800, "a case is one base document parsed at shipped knobs and again under 3-6 transformations (terminator rewriting, buffer knobs, padding); distinct = distinct (transformation kind, knob bucket, probe fired, outcome class) tuples"},
+    {"C11", "doc", "exploration", 40000, 1000000, 90, 1800, "a case is one cell of (magic, BOM, prefer_cif2, encoding, force flag, default converter) applied to a dialect-probe text; distinct = distinct cells"},
+    {"C12", "doc", "exploration", 60000, 1500000, 90, 1800, "a case is one well-formed host document with one planted defect of a documented class at a seeded position; distinct = distinct (defect class, position kind, dialect) triples"},
+    {"C13", "api", "exploration", 25000, 600000, 90, 1800, "as C02 with cif_version=1 output and CIF 1.1 re-parse; distinct = distinct (op kind, result code, pre-state class) triples plus distinct (writer outcome, refusal cause set) pairs"},
+    {"C14", "walk", "exploration", 40000, 1000000, 90, 1800, "a case is one seeded CIF plus one handler program (response table per callback kind, optional re-entrant queries); distinct = distinct (callback kind, response, depth class) triples plus distinct CIF shape classes"},
+    {"C15", "doc", "exploration", 80000, 2000000, 90, 1800, "a case is one document plus one handler program parsed in storing and syntax-only mode; distinct = distinct (callback kind, response, mode) triples"},
+    {"C16", "mix", "exploration", 8000, 400000, 90, 1800, "a case is one run of any engine's workload with semantic oracles off and the sanitizer / leak / locale / rounding monitors on; distinct = distinct (engine, op kind, result code) triples"},
+    {"C17", "mix", "fault_enumeration", 1200, 60000, 90, 1800, "a case is one (API call in a seeded history, allocator, failure index k) step; for each call k runs 1,2,... until the fault no longer fires (quick tier samples k beyond 8); distinct = distinct (API function, allocator, k, result code) tuples"},
+    {"C19", "value", "exploration", 200000, 5000000, 90, 1800, "a case is one seeded history of value/list/table/packet operations mirrored in the value model; distinct = distinct (op kind, result code, operand kind class) triples"},
     {NULL, NULL, NULL, 0, 0, 0, 0, NULL}
 };
 const PropInfo *prop_info(const std::string &p) { for (const PropInfo *i = g_props; i->id; ++i) if (p == i->id) return i; return NULL; }
